@@ -71,6 +71,8 @@ def run(tier):
                 cname = "CauchyLikelihood"
         ident = {"class": cname, "data": data, "jacobian": J}
         ck.case((kind, str(data), str(J)))
+        import copy as _copy
+        L_ref = _copy.deepcopy(L)                # an object without call history, for the stale-state comparison below
         with np.errstate(all="ignore"):
             got = {"value": float(L(theta)), "cost": float(L.cost(theta)),
                    "grad": np.asarray(L.gradient(theta), dtype=float), "costgrad": np.asarray(L.cost_gradient(theta), dtype=float)}
@@ -95,7 +97,7 @@ def run(tier):
                 v_a = float(L(th))
                 th += np.array([0.5, -0.25])
                 v_b, g_b = float(L(th)), np.asarray(L.gradient(th), dtype=float)
-                fresh_b, fresh_g = float(L(th.copy())), np.asarray(L.gradient(th.copy()), dtype=float)
+                fresh_b, fresh_g = float(L_ref(th.copy())), np.asarray(L_ref.gradient(th.copy()), dtype=float)
                 th -= np.array([0.5, -0.25])
                 v_c = float(L(th))
             if not ((v_b == fresh_b or (np.isnan(v_b) and np.isnan(fresh_b))) and np.array_equal(g_b, fresh_g, equal_nan=True) and v_c == v_a == got["value"]):
